@@ -175,3 +175,93 @@ fn summary(a: &[u64]) -> serde_json::Value {
         json!({"p0": a[0], "p1": a[1], "p25": a[25], "p50": a[50], "p75": a[75], "p99": a[99], "p100": a[100]})
     }
 }
+
+/// Populations of more than 10,000 fee-paying transactions (the cut falls inside a block).
+pub fn lane_bigfees(ctx: &mut Ctx) {
+    use crate::gen;
+    use crate::hist::{HistCfg, Palette, Path};
+    use crate::rng::{fp_str, Rng};
+    use ic_btc_interface::Network;
+    let max_cases = if ctx.tier == crate::cov::Tier::Quick { 4 } else { 100_000 };
+    for k in ctx.cases("bigfees", max_cases) {
+        if !ctx.time_left() {
+            break;
+        }
+        ctx.begin("bigfees", k);
+        let rng = Rng::derive(&[ctx.seed, fp_str("bigfees"), k]);
+        let cfg = HistCfg {
+            net: Network::Regtest,
+            path: Path::Insert,
+            threshold: 30,
+            n_each: 1,
+            max_txs: 2,
+            fork_pct: 0,
+            palette: Palette::One,
+            fanout_pct: 0,
+            share_pct: 0,
+            lazy_fees: k % 2 == 0,
+            sync_gate: false,
+            ingest_pct: 100,
+            fee_txs: true,
+        };
+        let mut h = Hist::new(cfg, rng);
+        h.fee = Some(FeeTracker::default());
+        h.fee_boundary();
+        let per_block = h.rng.range(2200, 3600) as usize;
+        let n_blocks = 12_000 / per_block + 2;
+        let mut ok = true;
+        for bi in 0..n_blocks {
+            // a block whose coinbase funds the next block's transactions
+            let tip = *h.model.best_chains()[0].last().unwrap();
+            let height = h.model.blocks[&tip].height + 1;
+            h.uniq += 1;
+            let script = h.uni.addrs[bi % h.uni.addrs.len()].script.clone();
+            let outs: Vec<(u64, Vec<u8>)> = (0..per_block).map(|_| (100_000, script.clone())).collect();
+            let cb = gen::coinbase_tx(height, h.uniq, outs);
+            use bitcoin::hashes::Hash;
+            let cbid = cb.compute_txid().to_byte_array();
+            let time = h.model.blocks[&tip].time + 100;
+            let b = gen::make_block(h.net(), tip, time, vec![cb], true);
+            if h.deliver(b, 1, ctx).is_none() || !h.opportunity(ctx) {
+                ok = false;
+                break;
+            }
+            // the spending block
+            let tip = *h.model.best_chains()[0].last().unwrap();
+            h.uniq += 1;
+            let mut txs = vec![gen::coinbase_tx(height + 1, h.uniq, vec![(1, script.clone())])];
+            for i in 0..per_block {
+                let fee = h.rng.range(0, 60_000);
+                let w = if h.rng.chance(1, 2) { 1 } else { 0 };
+                let sig = if w == 0 { h.rng.range(0, 70) as usize } else { 0 };
+                txs.push(gen::spend_tx(&[(cbid, i as u32)], vec![(100_000 - fee, script.clone())], w, sig, &mut h.rng));
+            }
+            let b = gen::make_block(h.net(), tip, time + 100, txs, true);
+            if h.deliver(b, 1, ctx).is_none() || !h.opportunity(ctx) {
+                ok = false;
+                break;
+            }
+            if let Some(mut f) = h.fee.take() {
+                f.check(&h, ctx);
+                f.check(&h, ctx);
+                h.fee = Some(f);
+            }
+            if !ctx.time_left() {
+                break;
+            }
+        }
+        if ok {
+            if let Some(f) = &h.fee {
+                ctx.cov.max("max_fee_population", f.max_population as u64);
+                ctx.cov.add("c15_ambiguous_cut_inside_block", f.ambiguous_cut);
+                ctx.cov.add("c15_tip_changes", f.tip_changes);
+            }
+            ctx.cov.count("c15_histories_with_more_than_10000_transactions");
+        }
+        if let Some(d) = &h.desync {
+            if ctx.cov.violations.iter().all(|v| v.case != k || v.lane != "bigfees") {
+                ctx.inconclusive(format!("history abandoned: {}", d));
+            }
+        }
+    }
+}
